@@ -183,13 +183,6 @@ def spec_oracle(line, out):
     elif kind == "npn":
         if not swallow and not has_pr and not rewrap and host != "exc(new:TypeError)":
             bad.append(("native-typeerror:host", "host=%s" % host))
-    if "FOT" in chain:
-        # spec (IteratorClose with a throw completion): the original exception wins, i.e. FOT is transparent for the
-        # thrown value.  What fails only because ForOf lets return()'s exception replace it is one (known) defect.
-        flow = ("identity:", "goerror:", "sentinel:", "stack:", "native-typeerror:")
-        if any(c.startswith(flow) for c, _ in bad):
-            bad = [(c, m) for c, m in bad if not c.startswith(flow)] + \
-                  [("forof-return-replaces-exception", "; ".join("%s %s" % (c, m) for c, m in bad if c.startswith(flow))[:300])]
     return bad
 
 
@@ -430,9 +423,8 @@ def main(ctx):
     ctx.stats.update({"host_outcomes": hosts, "payloads": payload_kinds, "depths": depth_hist, "frame_kinds": frame_hist,
                       "cases_with_catch_log": n_catch, "cases_with_finally_log": n_fin, "cases_with_rejection": n_rej})
 
-    # known finding: Runtime.ForOf lets an exception thrown by the iterator's return() replace the original one
-    # (joined-uncatchable: cbcbe34 and Error() panic: fe5ea29 are fixed)
-    KNOWN_CLAUSES = {"forof-return-replaces-exception": "forof-return-replaces-exception"}
+    # no unrepaired finding at present (joined-uncatchable: cbcbe34, Error() panic: fe5ea29, ForOf return(): 51964d9)
+    KNOWN_CLAUSES = {}
     KNOWN = {sig: KNOWN_CLAUSES[h[0][3]] for sig, h in by_sig.items() if h and h[0][3] in KNOWN_CLAUSES}
     # (a reproduced known finding is reported by ctx.violation as KNOWN-FINDING, it is not a broken obligation)
     ctx.obligation("oracle:property-holds-on-all-implementation-answers", "correspondence",
